@@ -25,6 +25,9 @@ frozen (Ice) flavours.
 
 Field values come from the domain all three formats represent: None, bool, integers in
 [-2^63, 2^64-1], finite floats, str without surrogates, lists and str-keyed dicts of those.
+  H1  no history: every round trip gives what it gives in a fresh history whatever was fed to any deserializer before -
+      malformed input (stray trailing byte, trailing frame start, truncated, empty, garbage, two frames) to every _fromX
+      of both families between judged round trips; nothing is demanded of the malformed call itself (counted)
 
 Observed but not judged (statement is silent): exact Python type of scalars after the
 round trip (1 vs 1.0 vs True), data objects sitting in a list / dict / Any field (no
@@ -44,7 +47,7 @@ from hio.help.doming import (RegDom, IceRegDom, TymeDom, IceTymeDom, registerify
 
 ID = "C28"
 LEVEL = "exploration"
-RULE = ("case = (class from a family of 25 registered data-object classes (6 with odd but legal field names - leading/double/lone underscore, trailing underscore, single letter, unicode, keyword-like, 120 chars - always sent with non-default values): flat/typed/nested 1-2 levels/list+dict fields, field-less marker classes "
+RULE = ("case = (class from a family of 33 registered data-object classes (8 of them inheriting / bequeathing nested data-object fields over 1-2 levels) (6 with odd but legal field names - leading/double/lone underscore, trailing underscore, single letter, unicode, keyword-like, 120 chars - always sent with non-default values): flat/typed/nested 1-2 levels/list+dict fields, field-less marker classes "
         "nested 1-2 levels and next to non-empty ones, frozen classes holding containers and non-frozen objects; mutable and "
         "frozen, Reg and Tyme flavours) x field values. Part 1 enumerates, for every class and every field, every value of a 60-entry "
         "boundary table (ints at 2^7..2^64 edges, float extremes, unicode planes/controls/escapes, empty and nested containers) with "
@@ -65,8 +68,10 @@ REQUIRE = {"roundtrips_judged": 20000, "nested_fields_checked": 5000, "roundtrip
            "roundtrips:mgpk": 6000, "non_ascii_strings": 1000, "frozen_class_roundtrips": 3000,
            "fieldless_nested_checked": 3000, "second_decodes_judged": 20000, "second_decodes_after_mutation": 8000,
            "frozen_second_decodes_after_mutation": 3000, "containers_mutated_before_second_decode": 20000,
-           "underscore_field_nondefault_roundtrips": 5000, "odd_named_field_nondefault_roundtrips": 3000}
-EXHAUSTIVE = {"quick": "every (class, field, boundary value) of the 25-class family x 60-value table, in json, cbor and mgpk",
+           "underscore_field_nondefault_roundtrips": 5000, "odd_named_field_nondefault_roundtrips": 3000,
+           "inherited_nested_fields_checked": 3000, "malformed_inputs_fed": 600, "malformed_inputs_raised": 300,
+           "history_roundtrips_after_malformed_input_refused": 1000, "history_roundtrips": 4000}
+EXHAUSTIVE = {"quick": "every (class, field, boundary value) of the 33-class family x 60-value table, in json, cbor and mgpk",
               "thorough": "every (class, field, boundary value) and every (class, field pair, value pair) over a 14-value sub-table"}
 
 
@@ -334,12 +339,85 @@ class VfIceTymeOdd(IceTymeDom):
     _ice: VfIceOdd = None
 
 
+# nested data-object fields that are INHERITED from a base class (one and two levels), both families
+@registerify
+@dataclass
+class VfShape(RegDom):
+    origin: VfInner = None
+    tag: Any = None
+
+    def __hash__(self):
+        return hash(self.__class__.__name__)
+
+
+@registerify
+@dataclass
+class VfCircle(VfShape):
+    radius: Any = None
+
+    def __hash__(self):
+        return hash(self.__class__.__name__)
+
+
+@registerify
+@dataclass
+class VfRing(VfCircle):
+    mid: VfMid = None                   # a nested field of its own next to the inherited one
+    inner_r: Any = None
+
+    def __hash__(self):
+        return hash(self.__class__.__name__)
+
+
+@registerify
+@dataclass(frozen=True)
+class VfIceShape(IceRegDom):
+    ice: VfIceFlat = None
+    unit: VfIceUnit = None
+
+
+@registerify
+@dataclass(frozen=True)
+class VfIceCircle(VfIceShape):
+    radius: Any = None
+
+
+@registerify
+@dataclass(frozen=True)
+class VfIceRing(VfIceCircle):
+    holder: VfIceWithUnit = None
+    inner_r: Any = None
+
+
+@namify
+@registerify
+@dataclass
+class VfTymeShape(TymeDom):
+    bag: VfTyme = None
+    label: Any = None
+
+    def __hash__(self):
+        return hash(self.__class__.__name__)
+
+
+@namify
+@registerify
+@dataclass
+class VfTymeCircle(VfTymeShape):
+    radius: Any = None
+
+    def __hash__(self):
+        return hash(self.__class__.__name__)
+
+
+INHERITING = [VfCircle, VfRing, VfIceCircle, VfIceRing, VfTymeCircle]
+HEIRFAMILY = [VfShape, VfCircle, VfRing, VfIceShape, VfIceCircle, VfIceRing, VfTymeShape, VfTymeCircle]
 ODDFAMILY = [VfOdd, VfIceOdd, VfOddOuter, VfIceOddOuter, VfTymeOdd, VfIceTymeOdd]
 FAMILY = [VfFlat, VfTyped, VfInner, VfMid, VfOuter, VfTyme, VfTymeOuter, VfIceFlat, VfIceMid, VfIceOuter, VfIceTyme,
-          VfUnit, VfIceUnit, VfWithUnit, VfUnitOuter, VfIceWithUnit, VfIceUnitOuter, VfIceHolder, VfIceTymeHolder] + ODDFAMILY
+          VfUnit, VfIceUnit, VfWithUnit, VfUnitOuter, VfIceWithUnit, VfIceUnitOuter, VfIceHolder, VfIceTymeHolder] + ODDFAMILY + HEIRFAMILY
 BYNAME = {c.__name__: c for c in FAMILY}
 FROZEN = {VfIceFlat, VfIceMid, VfIceOuter, VfIceTyme, VfIceUnit, VfIceWithUnit, VfIceUnitOuter, VfIceHolder, VfIceTymeHolder,
-          VfIceOdd, VfIceOddOuter, VfIceTymeOdd}
+          VfIceOdd, VfIceOddOuter, VfIceTymeOdd, VfIceShape, VfIceCircle, VfIceRing}
 FIELDLESS = {VfUnit, VfIceUnit}
 
 
@@ -453,6 +531,26 @@ def cases(tier, seed, shard, nshards):
                             n += 1
                             if n % nshards == shard:
                                 yield {"kind": "pair", "cls": cls.__name__, "p1": p1, "k1": k1, "p2": p2, "k2": k2}
+    # history cases: malformed input to a deserializer between judged round trips
+    for ci in range(len(HIST_CLASSES)):
+        for fi in range(len(HFORMATS)):
+            for mi in range(len(MALFORMED)):
+                n += 1
+                if n % nshards == shard:
+                    yield {"kind": "hist", "ops": [["bad", ci, fi, mi, n % 7], ["probe", (ci + 3) % len(HIST_CLASSES), n % 11],
+                                                   ["probe", ci, (n + 1) % 11]]}
+    hrng = random.Random(f"{seed}:C28:hist:{shard}")
+    for _ in range((480 if tier == "quick" else 12000) // nshards):
+        ops = []
+        for _ in range(hrng.randint(2, 16)):
+            if hrng.random() < 0.45:
+                ops.append(["bad", hrng.randrange(len(HIST_CLASSES)), hrng.randrange(len(HFORMATS)),
+                            hrng.randrange(len(MALFORMED)), hrng.randrange(50)])
+            else:
+                ops.append(["probe", hrng.randrange(len(HIST_CLASSES)), hrng.randrange(50)])
+        ops.append(["probe", hrng.randrange(len(HIST_CLASSES)), hrng.randrange(50)])
+        yield {"kind": "hist", "ops": ops}
+
     rng = random.Random(f"{seed}:C28:{shard}")
     nrand = (12000 if tier == "quick" else 120000) // nshards
     for _ in range(nrand):
@@ -648,6 +746,8 @@ def check_nested(cls, obj, back, ctx, fmt, trail=()):
             ctx.count("nested_fields_checked")
             if ncls in FIELDLESS:
                 ctx.count("fieldless_nested_checked")
+            if name not in cls.__dict__.get("__annotations__", {}):
+                ctx.count("inherited_nested_fields_checked")
             if not isinstance(got, ncls):
                 ctx.violation(f"nested-field-not-restored:{fmt}",
                               f"{cls.__name__}.{'.'.join(trail + (name,))} annotated {ncls.__name__} came back as "
@@ -735,10 +835,111 @@ def judge(cls, obj, ctx):
     return interesting
 
 
+# ---- call histories: malformed input must leave no trace ----------------------------------------------------------
+HIST_CLASSES = ["VfFlat", "VfOuter", "VfIceOuter", "VfTyme", "VfIceTyme", "VfWithUnit", "VfIceHolder", "VfOdd", "VfRing", "VfIceRing"]
+HFORMATS = [("json", "_asjson", "_fromjson"), ("cbor", "_ascbor", "_fromcbor"), ("mgpk", "_asmgpk", "_frommgpk"),
+            ("json-str", "_asjson", "_fromjson")]
+MALFORMED = ["trailing-byte", "trailing-frame-start", "truncated-1", "truncated-half", "empty", "garbage", "two-frames"]
+
+
+def obj_from(clsname, k):
+    """a deterministic instance: nested defaults with one field path set from the small value table"""
+    cls = BYNAME[clsname]
+    spec = nested_defaults(cls)
+    paths = field_paths(cls)
+    if paths:
+        path, val = paths[k % len(paths)], SUB[(k * 7 + 3) % len(SUB)]
+        if typed_ok(cls, path, val):
+            put(spec, path, val)
+        if cls in ODDFAMILY:
+            fill_odd(cls, spec, k, [path])
+    return cls, build(cls, spec)
+
+
+def malform(raw, how):
+    if how == "trailing-byte":
+        return raw + b"\x00"
+    if how == "trailing-frame-start":
+        return raw + raw[:1]
+    if how == "truncated-1":
+        return raw[:-1]
+    if how == "truncated-half":
+        return raw[:max(1, len(raw) // 2)]
+    if how == "empty":
+        return b""
+    if how == "garbage":
+        return b"\xc1\xff\x00garbage{"
+    return raw + raw
+
+
+def rt_outcomes(cls, obj):
+    """per format: what the round trip of obj gives - 'equal' | 'not-equal' | 'raise:<Type>'"""
+    out = []
+    for fmt, asx, fromx in HFORMATS:
+        try:
+            raw = getattr(obj, asx)()
+            back = getattr(cls, fromx)(raw.decode("utf-8") if fmt == "json-str" else raw)
+            out.append("equal" if type(back) is cls and back == obj else "not-equal")
+        except Exception as ex:
+            out.append("raise:" + type(ex).__name__)
+    return out
+
+
+def run_history(case, ctx):
+    """H1: every round trip gives what it gives in a fresh history, whatever was fed to any deserializer before it - in
+    particular malformed input that was refused (or accepted) and forgotten by the caller."""
+    probes = sorted({(op[1], op[2]) for op in case["ops"] if op[0] == "probe"})
+    fresh = {}
+    for ci, k in probes:
+        cls, obj = obj_from(HIST_CLASSES[ci], k)
+        judge(cls, obj, ctx)                        # the full post-conditions, once, in the reference position
+        fresh[(ci, k)] = rt_outcomes(cls, obj)
+    prev, prevdesc, shape = "start", "the reference round trips", []
+    for op in case["ops"]:
+        if op[0] == "bad":
+            _, ci, fi, mi, k = op
+            cls, obj = obj_from(HIST_CLASSES[ci], k)
+            fmt, asx, fromx = HFORMATS[fi]
+            bad = malform(getattr(obj, asx)(), MALFORMED[mi])
+            arg = bad.decode("utf-8", "replace") if fmt == "json-str" else bad
+            try:
+                getattr(cls, fromx)(arg)
+                res = "accepted"
+            except Exception as ex:
+                res = "raised " + type(ex).__name__
+            ctx.count("malformed_inputs_fed")
+            ctx.count("malformed_inputs_raised" if res != "accepted" else "malformed_inputs_accepted")
+            ctx.seen("malformed_outcomes", [fmt, MALFORMED[mi], res])
+            prev = "malformed-input-refused" if res != "accepted" else "malformed-input-accepted"
+            prevdesc = f"{cls.__name__}.{fromx}({MALFORMED[mi]} {arg[:40]!r}) which {res}"
+            shape.append("B" + res[:2])
+            continue
+        _, ci, k = op
+        cls, obj = obj_from(HIST_CLASSES[ci], k)
+        got = rt_outcomes(cls, obj)
+        ctx.count("history_roundtrips", len(got))
+        ctx.count("history_roundtrips_after_" + prev.replace("-", "_"), len(got))
+        for (fmt, asx, fromx), g, w in zip(HFORMATS, got, fresh[(ci, k)]):
+            if g != w:
+                ctx.violation(f"result-depends-on-call-history:{fmt}:after-{prev}",
+                              f"{cls.__name__} round trip through {fmt}: fresh history -> {w}; right after {prevdesc} -> {g} "
+                              f"(object {obj!r:.200})")
+        shape.append("J")
+        prev, prevdesc = "judged-round-trip", f"the round trips of {cls.__name__}"
+    return shape
+
+
 def run_case(case, ctx):
     kind = case["kind"]
     if kind == "unannotated":
         return observe_unannotated(case, ctx)
+    if kind == "hist":
+        shape = run_history(case, ctx)
+        ctx.seen("history_shapes", shape)
+        ctx.nontrivial(["hist", case["ops"]])
+        if len(case["ops"]) > 4:
+            ctx.sample({"case": case, "shape": shape})
+        return
     cls = BYNAME[case["cls"]]
     if kind == "rand":
         spec = case["spec"]
